@@ -115,7 +115,9 @@ func runPath(p *program, cfg *runConfig, solver *Solver, fallback func() *Solver
 			finish(abort{"engine", fmt.Sprintf("engine panic: %v", r)})
 		}
 	}()
-	call(ex, nil, token.NoPos, entry, nil)
+	res.retval = call(ex, nil, token.NoPos, entry, nil)
+	rv := res.retval
+	defer func() { res.retval = rv }()
 	if ex.pendingAbort != nil {
 		panic(*ex.pendingAbort)
 	}
